@@ -328,6 +328,9 @@ impl<const H: usize> Writer<H> {
         self.writer.get_ref().write_all_at(&zero_header, offset)?;
         self.writer.get_ref().sync_data()?;
 
+        // Readers may have cached the truncated records; the offsets will be reused
+        self.flushed_offset.invalidate_cached_reads();
+
         Ok(())
     }
 
